@@ -40,6 +40,10 @@ KEYTYPES = ["basic-key", "basic-key", "basic-key", "identifier",
             "zcsim.simdt.keytype_0"]
 
 
+class Unsatisfiable(Exception):
+    """The schema requires an infinitely nested section (generator waste)."""
+
+
 class Counter:
     def __init__(self):
         self.n = 0
@@ -60,8 +64,12 @@ def gen_schema(rng, opts=None):
     ValueError from the standard set.
     """
     o = {"callbacks": True, "max_types": 4, "abstract": True,
-         "handlers": True, "std_only": False, "keytypes": True}
+         "handlers": True, "std_only": False, "keytypes": True,
+         "std_keytypes": False}
     o.update(opts or {})
+    keytypes = KEYTYPES
+    if o["std_keytypes"]:
+        keytypes = [k for k in KEYTYPES if not k.startswith("zcsim.")]
     c = Counter()
     ir = {"types": [], "top": [], "keytype": "basic-key", "handler": None}
     ntypes = rng.randint(0, o["max_types"])
@@ -82,7 +90,7 @@ def gen_schema(rng, opts=None):
         if abstracts and rng.random() < 0.6:
             t["implements"] = rng.choice(abstracts)
         if o["keytypes"] and not t["extends"] and rng.random() < 0.25:
-            t["keytype"] = rng.choice(KEYTYPES)
+            t["keytype"] = rng.choice(keytypes)
         if o["callbacks"] and rng.random() < 0.3:
             t["datatype"] = "zcsim.simdt.sect_%d" % rng.randrange(8)
         base_has_wild = False
@@ -95,7 +103,7 @@ def gen_schema(rng, opts=None):
         ir["types"].append(t)
         concrete.append(name)
     if o["keytypes"] and rng.random() < 0.2:
-        ir["keytype"] = rng.choice(KEYTYPES)
+        ir["keytype"] = rng.choice(keytypes)
     if o["handlers"] and rng.random() < 0.2:
         ir["handler"] = "htop"
     ir["top"] = gen_items(rng, c, o, ir, concrete, abstracts, top=True,
@@ -359,6 +367,8 @@ def gen_value(rng, dt, defines=None):
 
 def gen_body(rng, ir, ctx, depth, names, opts):
     """Lines of the body of a container of type *ctx* ('$top' for the top)."""
+    if depth > 8:
+        raise Unsatisfiable(ctx)
     lines = []
     items = all_items(ir, ctx)
     order = list(range(len(items)))
@@ -537,6 +547,19 @@ def gen_text(rng, ir, opts=None):
     if opts.get("decorate", True):
         lines = decorate(rng, lines, defines=opts.get("defines", True))
     return lines
+
+
+def gen_pair(rng, sopts=None, topts=None, body_only=False):
+    """(schema IR, conforming line records); re-draws (from the same PRNG)
+    when a schema demands infinitely nested required sections."""
+    while True:
+        ir = gen_schema(rng, sopts)
+        try:
+            if body_only:
+                return ir, None
+            return ir, gen_text(rng, ir, topts)
+        except Unsatisfiable:
+            continue
 
 
 def text_of(lines):
